@@ -825,6 +825,146 @@ func c14RunSyncClose(id int, mt MemMapType) c14Case {
 	return c
 }
 
+// ---- a dead session's slices in the SHARED buffer manager -----------------------------------------
+// Two session pairs on one buffer path share one manager (reference counted, alive as long as any of
+// them).  Pair B stays alive and holds a little; pair A's streams hold unread received data (sync and
+// callback mode) and written-but-unflushed data when A's connection is severed.  After A's cleanup the
+// manager's free lists must be back where they were before A took anything — the manager itself lives
+// on.  Repeated with fresh pairs to make a drain visible.
+type c14NoRead struct{}
+
+func (c14NoRead) OnData(r BufferReader) {}
+func (c14NoRead) OnLocalClose()         {}
+func (c14NoRead) OnRemoteClose()        {}
+
+func c14FreeCounts(path string) ([]int, bool) {
+	bufferManagers.Lock()
+	bm, ok := bufferManagers.bms[path]
+	bufferManagers.Unlock()
+	if !ok {
+		return nil, false
+	}
+	r := make([]int, len(bm.lists))
+	for i, l := range bm.lists {
+		r[i] = int(atomic.LoadInt32(l.size))
+	}
+	return r, true
+}
+
+func c14SumInts(a []int) int {
+	n := 0
+	for _, x := range a {
+		n += x
+	}
+	return n
+}
+
+func c14RunSiblingSlices(id int, mt MemMapType) c14Case {
+	c := c14Case{ID: id, Kind: "slices", Name: fmt.Sprintf("dead-session-returns-slices-to-shared-manager-mt%d", mt), Later: map[string]int{}}
+	prefix := c14Prefix(id)
+	bufPath := prefix + bufferPathSuffix
+	mk := func(tag string) (*Session, *Session, error) {
+		conf := c14Conf(prefix, prefix+"_q"+tag, mt)
+		conf.ShareMemoryBufferCap = 8 << 20
+		return c14Sessions(id, tag, conf)
+	}
+	fill := func(n int, b byte) []byte {
+		p := make([]byte, n)
+		for i := range p {
+			p[i] = b
+		}
+		return p
+	}
+	csB, ssB, err := mk("b")
+	if err != nil {
+		c.Kind, c.Err = "broken", "harness: "+err.Error()
+		return c
+	}
+	stB, _ := csB.OpenStream()
+	stB.BufferWriter().WriteBytes(fill(20<<10, 0xB0)) // the live sibling's own holding (unflushed)
+	const rounds = 3
+	for k := 1; k <= rounds; k++ {
+		csA, ssA, err := mk(fmt.Sprintf("a%d", k))
+		if err != nil {
+			c.Kind, c.Err = "broken", "harness: "+err.Error()
+			return c
+		}
+		go func() { // the server end accepts and never reads; the second stream is in callback mode
+			n := 0
+			for {
+				st, err := ssA.AcceptStream()
+				if err != nil {
+					return
+				}
+				n++
+				if n == 2 {
+					st.SetCallbacks(c14NoRead{})
+				}
+			}
+		}()
+		before, ok := c14FreeCounts(bufPath)
+		if !ok {
+			c.Kind, c.Err = "broken", "harness: the shared buffer manager is not registered"
+			return c
+		}
+		st1, _ := csA.OpenStream()
+		st1.BufferWriter().WriteBytes(fill(50<<10, 1)) // written, never flushed
+		st2, _ := csA.OpenStream()
+		st2.BufferWriter().WriteBytes(fill(200<<10, 2))
+		st2.Flush(false) // unread on the server end (sync mode)
+		time.Sleep(50 * time.Millisecond)
+		st3, _ := csA.OpenStream()
+		st3.BufferWriter().WriteBytes(fill(64<<10, 3))
+		st3.Flush(false) // unread on the server end (callback mode)
+		time.Sleep(250 * time.Millisecond)
+		held, _ := c14FreeCounts(bufPath)
+		c.Later[fmt.Sprintf("round%d:slices-held-by-A", k)] = c14SumInts(before) - c14SumInts(held)
+		if c14SumInts(before)-c14SumInts(held) <= 0 {
+			c.Oracle = append(c.Oracle, "harness: session A holds no slices before the break")
+		}
+		syscall.Shutdown(ssA.connFd, syscall.SHUT_RDWR)
+		t0 := time.Now()
+		for (!csA.IsClosed() || !ssA.IsClosed()) && time.Since(t0) < 8*time.Second {
+			time.Sleep(20 * time.Millisecond)
+		}
+		if !csA.IsClosed() || !ssA.IsClosed() {
+			c.Oracle = append(c.Oracle, "C14:survivor-not-closed-after-peer-death")
+		}
+		time.Sleep(2600 * time.Millisecond)
+		after, ok := c14FreeCounts(bufPath)
+		if !ok {
+			c.Oracle = append(c.Oracle, "C14:shared-buffer-manager-gone-while-sibling-alive")
+			return c
+		}
+		missing := c14SumInts(before) - c14SumInts(after)
+		c.Later[fmt.Sprintf("round%d:slices-missing-after-cleanup", k)] = missing
+		for i := range before {
+			if i < len(after) && after[i] != before[i] {
+				c.Oracle = append(c.Oracle, "C14:dead-session-keeps-shared-buffer-slices")
+				break
+			}
+		}
+	}
+	// the sibling is untouched: still open, its unflushed data still there, and it can still allocate
+	if csB.IsClosed() || ssB.IsClosed() {
+		c.Oracle = append(c.Oracle, "C14:sibling-session-closed-by-another-sessions-death")
+	}
+	if stB.BufferWriter().Len() != 20<<10 {
+		c.Oracle = append(c.Oracle, "C14:sibling-session-lost-its-data")
+	}
+	if _, err := stB.BufferWriter().WriteBytes(fill(100<<10, 0xB1)); err != nil || csB.stats.allocShmErrorCount != 0 {
+		c.Oracle = append(c.Oracle, "C14:sibling-cannot-allocate-after-other-sessions-died")
+	}
+	csB.Close()
+	ssB.Close()
+	c.Residue = c14WaitClean(id, nil, 4*time.Second)
+	for _, r := range c.Residue {
+		c.Oracle = append(c.Oracle, "C14:closed-sessions-leave-"+strings.SplitN(r, ":", 2)[0])
+	}
+	c.Feat = append(c.Feat, "shared-manager", "unread-sync", "unread-callback", "unflushed", "repeated-breaks")
+	return c
+}
+
 // ---- scenarios that may take the process down: run in a child -----------------------------------
 func c14ChildRace() {
 	id := 9000
@@ -1128,6 +1268,8 @@ func TestVerif_C14(t *testing.T) {
 			mt := mt
 			i1, i2, i3, i4, i5, i6, i7 := next(), next(), next(), next(), next(), next(), next()
 			i8, i9, i10 := next(), next(), next()
+			i11 := next()
+			run(func() c14Case { return c14RunSiblingSlices(i11, mt) })
 			run(func() c14Case {
 				return c14RunKilled(i8, fmt.Sprintf("killed-peer-hung-with-unread-bytes-readers-pending-mt%d", mt), 2, false, true, mt, 1)
 			})
